@@ -2,7 +2,8 @@ import PdfModel.Lemmas.ShiftLexer
 
 /-! Shift lemmas for the string lexers (`Model/StrLexer.lean`), see `Lemmas/ShiftLexer.lean`. -/
 
-namespace PdfLex
+namespace PdfShift
+open PdfLex
 
 def shB (k : Nat) (r : UInt8 × Nat) : UInt8 × Nat := (r.1, k + r.2)
 def shN (k : Nat) (r : Nat × Nat) : Nat × Nat := (r.1, k + r.2)
@@ -180,4 +181,4 @@ theorem collectHex_shift (p b : Buf) (base : Nat) : ∀ (fuel pos : Nat) (acc : 
     | none => rfl
     | some c => simp only; exact ih _ _
 
-end PdfLex
+end PdfShift
